@@ -27,7 +27,7 @@ var profiles = map[string][]weighted{
 	"clients": {{"apply", 45}, {"tick", 5}, {"barrier", 8}, {"transfer", 6}, {"isolate", 5}, {"heal", 6}, {"remove", 2}, {"demote", 1}, {"crash", 4},
 		{"restart", 5}, {"cutleader", 3}, {"lossy", 2}, {"snapshot", 2}, {"inheritedtail", 4}},
 	"verify": {{"verify", 25}, {"cutleader", 10}, {"partition", 8}, {"isolate", 5}, {"heal", 10}, {"apply", 15}, {"lossy", 6}, {"addnonvoter", 2},
-		{"demote", 2}, {"tick", 8}, {"transfer", 2}, {"crash", 2}, {"restart", 3}},
+		{"demote", 2}, {"tick", 8}, {"transfer", 2}, {"crash", 2}, {"restart", 3}, {"demotecut", 4}},
 	"converge": {{"apply", 30}, {"tick", 5}, {"stalesuffix", 10}, {"lagcompact", 10}, {"crash", 8}, {"restart", 8}, {"isolate", 8}, {"partition", 8},
 		{"heal", 6}, {"snapshot", 5}, {"addvoter", 3}, {"restartall", 2}, {"lossy", 4}, {"crashop", 4}, {"join", 4}},
 	"futures": {{"apply", 14}, {"barrier", 7}, {"verify", 7}, {"addvoter", 3}, {"addnonvoter", 2}, {"demote", 2}, {"remove", 3}, {"snapshot", 5},
@@ -173,7 +173,7 @@ func genAction(t *rapid.T, p *Program, ws []weighted) Action {
 		a.Srv = oneOf(t, "target", -1, -1, -1, 0)
 		a.N = rapid.IntRange(1, 5).Draw(t, "stateSize")
 		a.Arg = rapid.IntRange(0, 2).Draw(t, "where")
-	case "cutleader":
+	case "cutleader", "demotecut":
 		a.N = rapid.IntRange(0, 2).Draw(t, "keepVoters")
 		a.Arg = rapid.IntRange(0, 1).Draw(t, "keepNonvoters")
 	case "stalesuffix":
@@ -270,7 +270,11 @@ func genLease(t *rapid.T, p *Program) {
 		if rapid.Bool().Draw(t, "traffic") {
 			p.Actions = append(p.Actions, Action{Op: "apply", Srv: -1, N: oneOf(t, "burst", 1, 3, 10), Dt: rapid.IntRange(0, 30).Draw(t, "dt")})
 		}
-		p.Actions = append(p.Actions, Action{Op: "cutleader", Dt: rapid.IntRange(0, 120).Draw(t, "cutAt"),
+		cut := "cutleader"
+		if rapid.IntRange(0, 3).Draw(t, "selfDemotion") == 0 {
+			cut = "demotecut"
+		}
+		p.Actions = append(p.Actions, Action{Op: cut, Dt: rapid.IntRange(0, 120).Draw(t, "cutAt"),
 			N: rapid.IntRange(0, 2).Draw(t, "keepVoters"), Arg: rapid.IntRange(0, 1).Draw(t, "keepNonvoters")})
 		p.Actions = append(p.Actions, Action{Op: "tick", Dt: oneOf(t, "watch", 150, 300, 500)})
 		p.Actions = append(p.Actions, Action{Op: "heal", Dt: 0})
@@ -314,7 +318,7 @@ func genPreVote(t *rapid.T, p *Program) {
 		}
 		k := rapid.IntRange(1, maxIso).Draw(t, "isolated")
 		perm := rapid.Permutation(seq(p.N)).Draw(t, "who")
-		p.Actions = append(p.Actions, Action{Op: "isolatemin", Set: perm[:k], Dt: rapid.IntRange(0, 100).Draw(t, "at")})
+		p.Actions = append(p.Actions, Action{Op: "isolatemin", Set: perm[:k], Dt: rapid.IntRange(0, 100).Draw(t, "at"), Arg: oneOf(t, "muteAndTransfer", 0, 0, 0, 1)})
 		length := oneOf(t, "timeouts", 5, 8, 12, 20, 50, 200)
 		if rapid.Bool().Draw(t, "trafficDuring") {
 			p.Actions = append(p.Actions, Action{Op: "apply", Srv: -1, N: oneOf(t, "burst2", 1, 5, 20), Dt: hb * 3})
